@@ -735,7 +735,41 @@ def filtered_generator_sum(x, y):
     return sum(1 for k in range(x) if k != y)
 
 
-FUNCS = [count_in_loop, filtered_generator_sum, none_use_caught, none_use_uncaught, nested_try, property_setter, try_except, nonlocal_counter, list_sort_methods, any_all_lists, isinstance_checks, enumerate_start, max_with_key, dict_views, while_else, string_format, accumulate_pattern, global_constant, dict_sorted_keys, set_sorted, sorting, int_trunc, dict_symbolic_keys, set_symbolic, symbolic_index, symbolic_range, while_symbolic, mixed_division, nested_conditions, object_state, list_of_lists_alias, string_branch, min_max_symbolic, tuple_keys, set_algebra, starred_unpack, set_compare, sorted_key_map, math_rounding, sequence_ordering, arith, true_div, floor_mod_pos, floor_mod_const, power, neg_abs, chained, short_circuit_values, ternary, if_chain, min_max, bool_int, list_build,
+def sums_with_conditionals(x, y):
+    s = 0
+    for i in range(x):
+        s += max(i, y) + abs(i - y) + (1 if i == y else 0)
+    t = sum(min(k, 1) for k in range(x))
+    return s, t
+
+
+def nested_sum_loops(x, y):
+    u = 0
+    for i in range(x):
+        for j in range(y):
+            u += (i < j) + i * j
+    return u
+
+
+def modular_sum_loop(x, y):
+    w = 0
+    for i in range(x):
+        w += (i + y) % 3 + (i + 4) // 2
+    return w
+
+
+def list_built_in_loop(x, y):
+    out = []
+    for i in range(3):
+        out.append(i * x + (y if i % 2 else -y))
+    acc = []
+    for v in out:
+        if v > 0:
+            acc.append(v)
+    return out, acc, len(acc)
+
+
+FUNCS = [sums_with_conditionals, nested_sum_loops, modular_sum_loop, list_built_in_loop, count_in_loop, filtered_generator_sum, none_use_caught, none_use_uncaught, nested_try, property_setter, try_except, nonlocal_counter, list_sort_methods, any_all_lists, isinstance_checks, enumerate_start, max_with_key, dict_views, while_else, string_format, accumulate_pattern, global_constant, dict_sorted_keys, set_sorted, sorting, int_trunc, dict_symbolic_keys, set_symbolic, symbolic_index, symbolic_range, while_symbolic, mixed_division, nested_conditions, object_state, list_of_lists_alias, string_branch, min_max_symbolic, tuple_keys, set_algebra, starred_unpack, set_compare, sorted_key_map, math_rounding, sequence_ordering, arith, true_div, floor_mod_pos, floor_mod_const, power, neg_abs, chained, short_circuit_values, ternary, if_chain, min_max, bool_int, list_build,
          list_slices, list_pop_index, list_mutation_alias, nested_lists, tuple_unpack, swap_aug, for_range, for_enumerate_zip, while_loop, for_else,
          comprehension, dict_ops, dict_int_keys, dict_iteration_order, default_dict, set_ops, builtins_misc, is_none, closures, default_args, recursion,
          classes, math_funcs, early_return, string_keys, augmented_subscript, truthiness, equality, index_errors, key_errors, zero_division, asserts, raises]
